@@ -546,6 +546,14 @@ fn parse_domain_or_wildcard(
         Ok(MaybeWildcard::Wildcard { name })
     } else {
         let name = parse_domain(origin, dotted_string)?;
+        // the `*` may come from the origin (`$ORIGIN *.example.com.` then `@`):
+        // an owner whose leftmost label is `*` is a wildcard however it is
+        // spelled, and that is also how it is written back out
+        if name.labels.len() > 1 && name.labels[0].octets().as_ref() == b"*" {
+            if let Some(parent) = DomainName::from_labels(name.labels[1..].into()) {
+                return Ok(MaybeWildcard::Wildcard { name: parent });
+            }
+        }
         Ok(MaybeWildcard::Normal { name })
     }
 }
